@@ -133,7 +133,8 @@ def showOutcome : Pc → String
   | _ => "fuel"
 
 /-- `run` that stops stepping once a final control point is reached (final points are
-fixed points of `step`, see `Lemmas/Negotiate.lean: runFast_eq_run`) -/
+fixed points of `step`; `Lemmas/NegotiateDriver.lean: runFast_eq_run`, restated as
+`C01_driver_runs_model`) -/
 def runFast (C : List Feature) (O : Oracle) : Nat → Conf → Conf
   | 0, c => c
   | n + 1, c => if c.pc.final then c else runFast C O n (step C O c)
